@@ -131,7 +131,7 @@ class Check(BaseCheck):
                    'callbacks that raise, falsy callables and callbacks carrying an attribute "_" are outside the statement')
 
     def plan(self, tier, seed):
-        n, sh = (7000, 16) if tier == 'quick' else (120000, 16)
+        n, sh = (7000, 16) if tier == 'quick' else (150000, 32)
         specs = [{'campaign': 'sentinels'}]
         for i in range(sh):
             specs.append({'campaign': 'histories', 'n': n, 'seed': seed, 'i': i, 'maxlen': 40 if i % 2 else 12})
